@@ -636,6 +636,43 @@ Section Normalize.
   Qed.
 End Normalize.
 
+(** * trimming: on a content without a trimmed HTLC the builder's transaction is BOLT-3's *)
+Section Trim.
+  Variable sha rip : bytes -> bytes.
+  Variable s : setup.
+  Variable k : ckeys.
+
+  Definition no_trimmed (c : content) : Prop :=
+    Forall (fun h => trimmed s (c_feerate c) true h = false) (c_offered c)
+    /\ Forall (fun h => trimmed s (c_feerate c) false h = false) (c_received c).
+
+  Lemma filter_all {A} (f : A -> bool) (l : list A) :
+    Forall (fun x => f x = true) l -> filter f l = l.
+  Proof. induction 1 as [|x l Hx _ IH]; cbn [filter]; [reflexivity|]. rewrite Hx, IH. reflexivity. Qed.
+
+  Lemma untrim_id c : no_trimmed c -> untrim s c = c.
+  Proof.
+    intros [Ho Hr]. unfold untrim. rewrite !filter_all.
+    - destruct c; reflexivity.
+    - eapply Forall_impl; [|exact Hr]. intros h Hh. cbn beta. rewrite Hh. reflexivity.
+    - eapply Forall_impl; [|exact Ho]. intros h Hh. cbn beta. rewrite Hh. reflexivity.
+  Qed.
+
+  Theorem bolt3_untrimmed c :
+    no_trimmed c ->
+    bolt3_tx sha rip s k c = canon_tx sha rip s k c
+    /\ bolt3_ws sha rip s k c = canon_ws sha rip s k c
+    /\ bolt3_htlc_txs sha rip s k c = htlc_txs sha rip s k c.
+  Proof. intros H. unfold bolt3_tx, bolt3_ws, bolt3_htlc_txs. rewrite (untrim_id c H). repeat split. Qed.
+
+  Lemma no_trimmed_normalize c : no_trimmed (normalize c) -> no_trimmed c.
+  Proof.
+    unfold no_trimmed, normalize. cbn [c_feerate c_offered c_received]. intros [Ho Hr]. split.
+    - eapply Permutation_Forall; [apply sort_htlcs_perm|exact Ho].
+    - eapply Permutation_Forall; [apply sort_htlcs_perm|exact Hr].
+  Qed.
+End Trim.
+
 (** * the two signing entry points *)
 Section Signing.
   Variable sha rip : bytes -> bytes.
